@@ -26,7 +26,7 @@ confirmed each (`tools/seedtest.sh` / `tools/seedtest3.sh`), ran the property's 
 (`VP_NO_STANDIN=1` for proofs only). Letters: `-A`, `-B` first two rounds (32 changes), `-C`, `-D` third
 round (32), `-E` fourth round (16 breaking), `-F` fifth round (16 breaking), `-H` / `-HH` fourth and fifth
 round (16 + 16 harmless refactorings, listed separately below). The titles are the sub-agents' own and may carry their own round/letter labels.
-The bounded stand-in suites were added after the third round, in response to it; "now:" lists what
+A BTOR2-only stand-in existed from the first round (obligations then named `standin:btor2::...`, now `standin:fmt:btor2::...`); the suites for all crates were added after the third round, in response to it; "now:" lists what
 the current machinery reports for the same change.
 
 | seed | change | result | failing obligation / why not |
